@@ -93,6 +93,9 @@ func checkIterator(ds *hdf5.Dataset, full []float64, dims []uint64) *vt.Verdict 
 			}
 			covered[off]++
 		}
+		// a caller that forms the rank+1 chunk key from the coordinates it was handed: what it appends is its own business
+		key1 := append(co, math.MaxUint64)
+		_ = key1
 	}
 	if err := it.Err(); err != nil {
 		return bad("iteration error: %v", err)
